@@ -455,6 +455,266 @@ V('c12-complete-without-total', 'C12', 'src/iface/fragmentation.rs',
   """        self.total_size == Some(self.assembler.peek_front())""",
   """        self.total_size.is_some() && self.assembler.peek_front() > 0""", 'R12.4')
 
+
+# ---- C09 / C10 / C03 / C06 / C20 (added with the rules of those properties) --------------------------
+UDPS = 'src/socket/udp.rs'
+V('c09-udp-emit-result-dropped', 'C09', UDPS,
+  """            emit(cx, packet_meta.meta, (ip_repr, repr, payload_buf))
+        });""",
+  """            let _ = emit(cx, packet_meta.meta, (ip_repr, repr, payload_buf));
+            Ok(())
+        });""", 'R09.1', 'a failed emit loses the datagram')
+V('c09-udp-second-socket', 'C09', 'src/iface/interface/udp.rs',
+  """                udp_socket.process(self, meta, &ip_repr, &udp_repr, udp_packet.payload());
+                return None;""",
+  """                udp_socket.process(self, meta, &ip_repr, &udp_repr, udp_packet.payload());""", 'R09.4')
+V('c09-udp-recv-slice-truncates', 'C09', UDPS,
+  """        let (buffer, endpoint) = self.recv().map_err(|_| RecvError::Exhausted)?;
+
+        if data.len() < buffer.len() {
+            return Err(RecvError::Truncated);
+        }
+""",
+  """        let (buffer, endpoint) = self.recv().map_err(|_| RecvError::Exhausted)?;
+""", 'R09.5')
+V('c09-udp-meta-local-address', 'C09', UDPS,
+  """            local_address: Some(ip_repr.dst_addr()),
+            meta,""",
+  """            local_address: Some(ip_repr.src_addr()),
+            meta,""", 'R09.6')
+V('c09-of-packet-index', 'C09', 'src/wire/ip.rs',
+  """        let Some(&first) = data.first() else {
+            return Err(Error);
+        };""",
+  """        let first = data[0];""", 'R09.7', 'reverts fix F15')
+V('c10-icmpv4-reply-any-dst', 'C10', 'src/iface/interface/ipv4.rs',
+  """        } else if self.is_unicast_v4(ipv4_repr.dst_addr) {
+            // Reply as normal when src_addr and dst_addr are both unicast""",
+  """        } else if !ipv4_repr.dst_addr.is_broadcast() {
+            // Reply as normal when src_addr and dst_addr are both unicast""", 'R10.3')
+V('c10-frag-buffer-le', 'C10', 'src/iface/interface/mod.rs',
+  """                        if frag.buffer.len() < total_ip_len {""",
+  """                        if frag.buffer.len() <= total_ip_len {""", 'R10.1')
+V('c06-tcp-eol-single', 'C06', 'src/wire/tcp.rs',
+  """                for p in buffer.iter_mut() {
+                    *p = field::OPT_END;
+                }""",
+  """                buffer[0] = field::OPT_END;""", 'R10.4')
+V('c03-frag1-no-lower-bound', 'C03', 'src/iface/interface/sixlowpan.rs',
+  """        if frag.datagram_size() < 40 {
+            net_debug!("6LoWPAN: fragment size too small");
+            return None;
+        }
+""",
+  """""", 'R03.4')
+V('c03-udp-len-underflow', 'C03', 'src/iface/interface/sixlowpan.rs',
+  """        total_len.checked_sub(*payload_len + 8).ok_or(Error)?""",
+  """        total_len - *payload_len - 8""", 'R03.4', 'reverts fix F3')
+V('c03-ingress-unwrap', 'C03', 'src/iface/interface/ethernet.rs',
+  """        let eth_frame = check!(EthernetFrame::new_checked(frame));""",
+  """        let eth_frame = EthernetFrame::new_checked(frame).unwrap();""", 'R03.2')
+V('c06-ipv4-ident-getter-field', 'C06', 'src/wire/ipv4.rs',
+  """    pub fn ident(&self) -> u16 {
+        let data = self.buffer.as_ref();
+        NetworkEndian::read_u16(&data[field::IDENT])""",
+  """    pub fn ident(&self) -> u16 {
+        let data = self.buffer.as_ref();
+        NetworkEndian::read_u16(&data[field::LENGTH])""", 'R06.2')
+V('c06-ipv4-dscp-shift', 'C06', 'src/wire/ipv4.rs',
+  """        data[field::DSCP_ECN] = (data[field::DSCP_ECN] & !0xfc) | (value << 2)""",
+  """        data[field::DSCP_ECN] = (data[field::DSCP_ECN] & !0xfc) | (value << 3)""", 'R06.3')
+V('c06-nhc-ports-and', 'C06', 'src/wire/sixlowpan/nhc.rs',
+  """data[idx] = (((src_port - 0xf0b0) as u8) << 4) | ((dst_port - 0xf0b0) as u8);""",
+  """data[idx] = (((src_port - 0xf0b0) as u8) << 4) & ((dst_port - 0xf0b0) as u8);""", 'R06.4', 'reverts fix F1')
+V('c06-nhc-dst-mask', 'C06', 'src/wire/sixlowpan/nhc.rs',
+  """                0xf0b0 + (data[start] & 0x0f) as u16""",
+  """                0xf0b0 + (data[start] & 0xff) as u16""", 'R06.4', 'reverts fix F1b')
+V('c06-tcp-repr-swapped-ports', 'C06', 'src/wire/tcp.rs',
+  """        packet.set_src_port(self.src_port);
+        packet.set_dst_port(self.dst_port);""",
+  """        packet.set_src_port(self.dst_port);
+        packet.set_dst_port(self.src_port);""", 'R06.5')
+V('c06-ndisc-offset-reset', 'C06', 'src/wire/ndisc.rs',
+  """                    NdiscOptionRepr::Mtu(mtu).emit(&mut opt_pkt);
+                    offset += NdiscOptionRepr::Mtu(mtu).buffer_len();""",
+  """                    NdiscOptionRepr::Mtu(mtu).emit(&mut opt_pkt);
+                    offset = NdiscOptionRepr::Mtu(mtu).buffer_len();""", 'R06.6')
+V('c20-iphc-hop-limit-offset', 'C20', 'src/wire/sixlowpan/iphc.rs',
+  """                let start = (self.ip_fields_start()
+                    + self.traffic_class_size()
+                    + self.next_header_size()) as usize;
+
+                let data = self.buffer.as_ref();
+                data[start..start + 1][0]""",
+  """                let start = (self.ip_fields_start() + self.traffic_class_size()) as usize;
+
+                let data = self.buffer.as_ref();
+                data[start..start + 1][0]""", 'R06.1')
+V('c20-iphc-hlim-table', 'C20', 'src/wire/sixlowpan/iphc.rs',
+  """            64 => self.set_hlim_field(0b10),
+            1 => self.set_hlim_field(0b01),""",
+  """            64 => self.set_hlim_field(0b01),
+            1 => self.set_hlim_field(0b10),""", 'R06.1b')
+V('c20-fragn-offset-not-advanced', 'C20', 'src/iface/interface/sixlowpan.rs',
+  """                frag.sent_bytes += frag_size;
+                frag.sixlowpan.datagram_offset += frag_size;""",
+  """                frag.sent_bytes += frag_size;""", 'R20.1')
+V('c20-fragn-size-unaligned', 'C20', 'src/iface/interface/sixlowpan.rs',
+  """                pkt.sixlowpan.fragn_size = (125 - ieee_len - fragn.buffer_len()) / 8 * 8;""",
+  """                pkt.sixlowpan.fragn_size = 125 - ieee_len - fragn.buffer_len();""", 'R20.2')
+V('c20-rx-offset-units', 'C20', 'src/iface/interface/sixlowpan.rs',
+  """        let offset = frag.datagram_offset() as usize * 8;""",
+  """        let offset = frag.datagram_offset() as usize;""", 'R20.2')
+S('silent-frag-buffer-flipped-compare', ['C10', 'C09', 'C03', 'C12'], 'src/iface/interface/mod.rs',
+  """                        if frag.buffer.len() < total_ip_len {""",
+  """                        if total_ip_len > frag.buffer.len() {""", 'same comparison, operands flipped')
+S('silent-udp-recv-slice-ge', ['C09'], UDPS,
+  """        let (buffer, endpoint) = self.recv().map_err(|_| RecvError::Exhausted)?;
+
+        if data.len() < buffer.len() {
+            return Err(RecvError::Truncated);
+        }
+
+        let length = min(data.len(), buffer.len());
+        data[..length].copy_from_slice(&buffer[..length]);
+        Ok((length, endpoint))""",
+  """        let (buffer, endpoint) = self.recv().map_err(|_| RecvError::Exhausted)?;
+
+        if !(data.len() >= buffer.len()) {
+            return Err(RecvError::Truncated);
+        }
+
+        let length = buffer.len();
+        data[..length].copy_from_slice(buffer);
+        Ok((length, endpoint))""", 'equivalent formulation of the truncation guard')
+S('silent-ipv4-dscp-setter-rewrite', ['C06'], 'src/wire/ipv4.rs',
+  """        data[field::DSCP_ECN] = (data[field::DSCP_ECN] & !0xfc) | (value << 2)""",
+  """        let old = data[field::DSCP_ECN] & 0x03;
+        data[field::DSCP_ECN] = old | (value << 2)""", 'same bits, different spelling')
+S('silent-iphc-hop-limit-sum-order', ['C06', 'C20'], 'src/wire/sixlowpan/iphc.rs',
+  """                let start = (self.ip_fields_start()
+                    + self.traffic_class_size()
+                    + self.next_header_size()) as usize;
+
+                let data = self.buffer.as_ref();
+                data[start..start + 1][0]""",
+  """                let start = (self.next_header_size()
+                    + self.ip_fields_start()
+                    + self.traffic_class_size()) as usize;
+
+                let data = self.buffer.as_ref();
+                data[start..start + 1][0]""", 'sum reordered')
+S('silent-fragn-advance-order', ['C20'], 'src/iface/interface/sixlowpan.rs',
+  """                frag.sent_bytes += frag_size;
+                frag.sixlowpan.datagram_offset += frag_size;""",
+  """                frag.sixlowpan.datagram_offset += frag_size;
+                frag.sent_bytes += frag_size;""", 'two independent updates swapped')
+
+
+# ---- C16 / C18 / C19 ------------------------------------------------------------------------------
+V('c16-ratelimited-sends', 'C16', 'src/iface/interface/mod.rs',
+  """            NeighborAnswer::RateLimited => return Err(DispatchError::NeighborPending),
+            _ => (), // XXX""",
+  """            _ => (), // XXX""", 'R16.2', 'discovery storm: a request for every queued packet')
+V('c16-no-limit-rate', 'C16', 'src/iface/interface/mod.rs',
+  """        // The request got dispatched, limit the rate on the cache.
+        self.neighbor_cache.limit_rate(self.now);
+        Err(DispatchError::NeighborPending)""",
+  """        Err(DispatchError::NeighborPending)""", 'R16.2')
+V('c16-expired-entry-used', 'C16', 'src/iface/neighbor.rs',
+  """        }) = self.storage.get(protocol_addr)
+            && timestamp < expires_at
+        {""",
+  """        }) = self.storage.get(protocol_addr)
+            && (timestamp < expires_at || timestamp < self.silent_until)
+        {""", 'R16.4')
+V('c16-entry-lifetime', 'C16', 'src/iface/neighbor.rs',
+  """    pub(crate) const ENTRY_LIFETIME: Duration = Duration::from_millis(60_000);""",
+  """    pub(crate) const ENTRY_LIFETIME: Duration = Duration::from_millis(600_000);""", 'R16.4')
+V('c16-route-min-prefix', 'C16', 'src/iface/route.rs',
+  """            .max_by_key(|route| route.cidr.prefix_len())""",
+  """            .min_by_key(|route| route.cidr.prefix_len())""", 'R16.5')
+V('c16-route-expiry-ignored', 'C16', 'src/iface/route.rs',
+  """                if let Some(expires_at) = route.expires_at
+                    && timestamp > expires_at
+                {
+                    return false;
+                }
+                route.cidr.contains_addr(addr)""",
+  """                route.cidr.contains_addr(addr)""", 'R16.5')
+V('c18-ack-any-xid', 'C18', 'src/socket/dhcpv4.rs',
+  """        if dhcp_repr.transaction_id != self.transaction_id {
+            return;
+        }
+""",
+  """""", 'R18.1')
+V('c18-ack-any-hwaddr', 'C18', 'src/socket/dhcpv4.rs',
+  """        if dhcp_repr.client_hardware_address != ethernet_addr {
+            return;
+        }
+""",
+  """""", 'R18.1')
+V('c18-your-ip-not-unicast', 'C18', 'src/socket/dhcpv4.rs',
+  """        if !dhcp_repr.your_ip.x_is_unicast() {
+            net_debug!("DHCP ignoring ACK because your_ip is not unicast");
+            return None;
+        }
+""",
+  """""", 'R18.1')
+V('c18-max-lease-ignored', 'C18', 'src/socket/dhcpv4.rs',
+  """            lease_duration = lease_duration.min(max_lease_duration);""",
+  """            lease_duration = lease_duration.max(max_lease_duration);""", 'R18.3')
+V('c18-expired-keeps-renewing', 'C18', 'src/socket/dhcpv4.rs',
+  """                if state.expires_at <= now {
+                    net_debug!("DHCP lease expired");
+                    self.reset();
+                    // return Ok so we get polled again
+                    return Ok(());
+                }
+""",
+  """""", 'R18.4')
+V('c19-no-txid-check', 'C19', 'src/socket/dns.rs',
+  """                if udp_repr.dst_port != pq.port || p.transaction_id() != pq.txid {""",
+  """                if udp_repr.dst_port != pq.port {""", 'R19.1')
+V('c19-no-type-check', 'C19', 'src/socket/dns.rs',
+  """                if question.type_ != pq.type_ {""",
+  """                if false && question.type_ != pq.type_ {""", 'R19.1')
+V('c19-eq-names-prefix', 'C19', 'src/socket/dns.rs',
+  """            (None, _) => return Ok(false),
+            (_, None) => return Ok(false),""",
+  """            (None, _) => return Ok(true),
+            (_, None) => return Ok(false),""", 'R19.1b')
+V('c19-no-backoff', 'C19', 'src/socket/dns.rs',
+  """                pq.delay = MAX_RETRANSMIT_DELAY.min(pq.delay * 2);""",
+  """                pq.delay = MAX_RETRANSMIT_DELAY.min(pq.delay);""", 'R19.4')
+S('silent-neighbor-lookup-order', ['C16'], 'src/iface/neighbor.rs',
+  """        if timestamp < self.silent_until {
+            Answer::RateLimited
+        } else {
+            Answer::NotFound
+        }""",
+  """        if self.silent_until > timestamp {
+            Answer::RateLimited
+        } else {
+            Answer::NotFound
+        }""", 'comparison flipped')
+S('silent-dhcp-guard-order', ['C18'], 'src/socket/dhcpv4.rs',
+  """        if dhcp_repr.client_hardware_address != ethernet_addr {
+            return;
+        }
+        if dhcp_repr.transaction_id != self.transaction_id {
+            return;
+        }""",
+  """        if dhcp_repr.transaction_id != self.transaction_id {
+            return;
+        }
+        if dhcp_repr.client_hardware_address != ethernet_addr {
+            return;
+        }""", 'two independent guards swapped')
+S('silent-dns-guard-split', ['C19'], 'src/socket/dns.rs',
+  """                if udp_repr.dst_port != pq.port || p.transaction_id() != pq.txid {""",
+  """                if p.transaction_id() != pq.txid || udp_repr.dst_port != pq.port {""", 'disjunction reordered')
+
 S('silent-tcp-rename-local', ['C17'], T,
   """        let mut ack_of_fin = false;""",
   """        let mut ack_of_fin = false; let _unused_marker = 0u8;""", 'adds an unused local')
